@@ -158,15 +158,10 @@ class Report:
                 mm = models[k]
             else:
                 # ask for a different model
-                s = z3.Solver()
-                s.set('timeout', timeout_ms)
-                s.add(*ctx.pc)
-                s.add(*extra)
-                s.add(z3.Not(claim))
-                s.add(*blocked)
-                if str(s.check()) != 'sat':
+                r3, dt3, mm = symx.solve(list(ctx.pc) + list(extra) + [z3.Not(claim)] + blocked, min(timeout_ms, 15000))
+                self.solver_time += dt3
+                if r3 != 'sat':
                     break
-                mm = s.model()
             try:
                 c = cex(mm)
             except Exception as e:   # renderer bug = harness error
